@@ -273,7 +273,7 @@ def run(ctx):
                 kinds.add("str3")
             d = {k: c[k] for k in c if k not in ("id", "table", "verdicts", "seqlen")}
             ctx.sample(d)
-    ctx.exhaustive = {"scalar_values": "all of U+0001..U+10FFFF without surrogates",
+    ctx.extra["exhaustive_scope"] = {"scalar_values": "all of U+0001..U+10FFFF without surrogates",
                       "strings": "all strings to length %d over the OPL and the XML structural alphabet" % (3 if ctx.tier == "quick" else 4),
                       "byte_strings": "lengths 1-2 all; length 3 %s; length 4 strided; all strings over the 14 class-boundary bytes"
                                       % ("strided" if ctx.tier == "quick" else "all")}
